@@ -48,6 +48,8 @@ pub struct TapState {
     pub divergent: bool,
     /// the density failed (recoverably) at this leapfrog: no state
     pub failed: bool,
+    /// signed step size of the leapfrog that produced this state (0 for a start state)
+    pub epsilon: f64,
 }
 
 thread_local! {
